@@ -207,8 +207,12 @@ class PolarsSchemaBackend(BaseSchemaBackend):
                 scalar_failure_cases["check"].append(check_identifier)
                 scalar_failure_cases["check_number"].append(err.check_index)
                 scalar_failure_cases["index"].append(None)
+                # (the failure case column is text in the report, as for the
+                # row-wise failure cases above: frames of different types,
+                # e.g. a null scalar and a string, cannot be concatenated)
                 failure_cases_df = pl.DataFrame(scalar_failure_cases).cast(
                     {
+                        "failure_case": pl.Utf8,
                         "check_number": pl.Int32,
                         "column": pl.String,
                         "index": pl.Int32,
